@@ -308,8 +308,41 @@ def parse_qasm(text):
 
 # --------------------------------------------------------------------------- generated functions
 
-HEADER = "from typing import Tuple\nfrom qlasskit import qlassf, Qint\n"
-HEADER_BINDINGS = [["Tuple", None], ["qlassf", None], ["Qint", None]]
+HEADER = ("from typing import Tuple\nfrom qlasskit import qlassf, qlassfa, Qint\n"
+          "from qlasskit.boolopt.bool_optimizer import fastOptimizer, defaultOptimizer\n")
+HEADER_BINDINGS = [["Tuple", None], ["qlassf", None], ["qlassfa", None], ["Qint", None],
+                   ["fastOptimizer", None], ["defaultOptimizer", None]]
+
+# ---- the configuration a script chooses for one function (everything the decorator / the call offers
+# besides types/defs/compiler): how the QlassF is made and with which options
+#   style: "qlassf" = bare decorator, "qlassfa" = decorator with arguments, "call" = qlassf(<source string>, ...)
+DEFAULT_CFG = dict(style="qlassf", opt=None, to_compile=None, uncompute=None)
+
+
+def mk_cfg(style="qlassf", opt=None, to_compile=None, uncompute=None):
+    return dict(style=style, opt=opt, to_compile=to_compile, uncompute=uncompute)
+
+
+def cfg_kwargs(cfg):
+    parts = []
+    if cfg["opt"]:
+        parts.append(f"bool_optimizer={cfg['opt']}Optimizer")
+    if cfg["to_compile"] is not None:
+        parts.append(f"to_compile={cfg['to_compile']}")
+    if cfg["uncompute"] is not None:
+        parts.append(f"uncompute={cfg['uncompute']}")
+    return ", ".join(parts)
+
+
+def cfg_tag(cfg):
+    t = cfg["style"]
+    if cfg["opt"]:
+        t += "+" + cfg["opt"]
+    if cfg["to_compile"] is not None:
+        t += "+nocompile" if cfg["to_compile"] is False else "+compile"
+    if cfg["uncompute"] is not None:
+        t += "+nouncompute" if cfg["uncompute"] is False else "+uncompute"
+    return t
 NAME_POOL = ["alpha", "beta", "gamma", "delta", "zeta", "kappa", "omega", "Bravo", "Zulu", "_under",
              "sigma", "theta", "lambda_", "rho", "Mike", "a_b", "eta"]
 
@@ -317,7 +350,10 @@ NAME_POOL = ["alpha", "beta", "gamma", "delta", "zeta", "kappa", "omega", "Bravo
 class Fn:
     """one generated qlassf function: source (without decorator), argument spec, python reference"""
 
-    def __init__(self, name, args, ret, body, ref=None, tag=""):
+    def __init__(self, name, args, ret, body, ref=None, tag="", cfg=None, py_auth=False):
+        self.cfg = dict(cfg or DEFAULT_CFG)  # how the script builds the QlassF
+        self.py_auth = py_auth  # judge against CPython's execution of the source (not the library's expressions)
+        self.defname = None  # name of the `def` when it differs from the bound name (source-string style)
         self.name = name
         self.args = args  # [(name, 'bool'|int width)]
         self.ret = ret  # annotation text
@@ -330,7 +366,29 @@ class Fn:
         return f"def {name or self.name}({ann}) -> {self.ret}:\n" + "".join(f"    {l}\n" for l in self.body)
 
     def renamed(self, name):
-        return Fn(name, self.args, self.ret, self.body, self.ref, self.tag)
+        return Fn(name, self.args, self.ret, self.body, self.ref, self.tag, self.cfg, self.py_auth)
+
+    def with_cfg(self, cfg):
+        return Fn(self.name, self.args, self.ret, self.body, self.ref, self.tag, cfg, self.py_auth)
+
+    def ret_tuple(self, r):
+        """the value CPython returns -> tuple of return bits (Qint: little endian, modulo the width)"""
+        def one(ann, v):
+            ann = ann.strip()
+            if ann == "bool":
+                return (bool(v),)
+            m = re.fullmatch(r"Qint\[(\d+)\]", ann)
+            if m:
+                return int_bits(int(v) % 2 ** int(m.group(1)), int(m.group(1)))
+            raise ValueError(ann)
+        m = re.fullmatch(r"Tuple\[(.*)\]", self.ret)
+        if m:
+            anns = [x for x in m.group(1).split(",")]
+            out = ()
+            for a, v in zip(anns, r):
+                out += one(a, v)
+            return out
+        return one(self.ret, r)
 
     def bit_names(self):
         out = []
@@ -472,6 +530,125 @@ def random_fn(rng, name):
               lambda v, c=c: (v["a"] == c, v["p"]), "rand-tuple")
 
 
+
+# --------------------------------------------------------------------------- configurations x re-binding bodies
+
+def cpython_fn(name, args, ret, body, tag, cfg=None):
+    """an Fn whose reference is CPython's own execution of the generated source (annotations are not
+    evaluated); Qint arguments are python ints, a Qint[w] result is read modulo 2^w"""
+    import __future__
+
+    fn = Fn(name, args, ret, body, tag=tag, cfg=cfg, py_auth=True)
+    ns = {}
+    exec(compile(fn.src(), "<c17-cpython-ref>", "exec", flags=__future__.annotations.compiler_flag, dont_inherit=True), ns)
+    pyf = ns[name]
+    fn.ref = lambda val, pyf=pyf, fn=fn: fn.ret_tuple(pyf(**val))
+    return fn
+
+
+def _bools(names):
+    return [(v, "bool") for v in names]
+
+
+def config_bodies():
+    """bodies that bind a name more than once (variables, arguments, through if / for), with readers of the
+    name before and after the re-binding - the same list for every seed"""
+    B_ = []
+    add = lambda tag, args, ret, body: B_.append(cpython_fn("f", args, ret, body, tag))
+    add("rebind-read-before-after", _bools("abe"), "bool", ["c = a and b", "d = c or e", "c = not a", "return d and c"])
+    add("rebind-self-twice", _bools("abc"), "bool", ["t = a and b", "u = t or c", "t = t ^ c", "t = not t", "return u and t"])
+    add("rebind-argument", _bools("abc"), "bool", ["a = a and b", "c = c or a", "a = not a", "return a ^ c"])
+    add("rebind-swap", _bools("ab"), "bool", ["t = a", "a = b", "b = t", "return a and not b"])
+    add("rebind-three-times", _bools("abcd"), "bool",
+        ["t = a or b", "u = t and c", "t = c ^ d", "v = t or u", "t = not b", "return (t and v) or (u and not t)"])
+    add("if-else-rebind", _bools("abc"), "bool",
+        ["t = a", "u = t and c", "if b:", "    t = c", "else:", "    t = not t", "return t ^ u"])
+    add("if-rebind", _bools("abc"), "bool", ["t = a", "u = t or c", "if b:", "    t = not c", "return t and u"])
+    add("if-rebind-argument", _bools("abc"), "bool", ["d = a or c", "if a:", "    a = b", "return a and d"])
+    add("for-rebind", _bools("abc"), "bool",
+        ["t = a", "u = t", "for i in range(3):", "    t = t ^ b", "    u = u or t", "return t and (u ^ c)"])
+    add("rebind-tuple-return", _bools("abe"), "Tuple[bool, bool]",
+        ["c = a and b", "d = c ^ e", "c = not a", "return (d, c or e)"])
+    add("rebind-qint", [("a", 2), ("b", 2), ("c", "bool")], "bool",
+        ["t = a", "u = t == b", "t = b", "if c:", "    t = a", "return u or (t == 1)"])
+    add("rebind-qint-return", [("a", 2), ("b", 2)], "Qint[2]", ["t = a", "u = t", "t = b", "return u if t == 2 else t"])
+    add("intermediates-once", _bools("abcd"), "bool", ["e = a and b", "g = e or c", "return (g ^ d) and (e or d)"])
+    return B_
+
+
+def systematic_cfgs():
+    return [
+        mk_cfg("qlassf"),
+        mk_cfg("qlassfa"),
+        mk_cfg("qlassfa", opt="fast"),
+        mk_cfg("qlassfa", opt="default"),
+        mk_cfg("qlassfa", to_compile=False),
+        mk_cfg("qlassfa", uncompute=False),
+        mk_cfg("qlassfa", opt="fast", to_compile=False),
+        mk_cfg("qlassfa", opt="fast", uncompute=False),
+        mk_cfg("call"),
+        mk_cfg("call", opt="fast"),
+        mk_cfg("call", opt="fast", to_compile=False, uncompute=False),
+        mk_cfg("call", opt="default", to_compile=False),
+    ]
+
+
+def random_cfg(rng):
+    return mk_cfg(rng.choice(["qlassf", "qlassfa", "qlassfa", "call"]),
+                  opt=rng.choice([None, "fast", "fast", "default"]),
+                  to_compile=rng.choice([None, None, False, True]),
+                  uncompute=rng.choice([None, None, False, True]))
+
+
+def _normal_cfg(cfg):
+    """the bare decorator takes no options"""
+    if cfg["style"] == "qlassf" and cfg_kwargs(cfg):
+        cfg = dict(cfg, style="qlassfa")
+    return cfg
+
+
+def random_rebind_fn(rng, name):
+    """random straight-line / if / for body over booleans in which names are bound again (locals and
+    arguments) and read before and after; reference = CPython"""
+    n = rng.randint(2, 4)
+    args = list("abcd"[:n])
+    locs = ["t", "u", "v"]
+    defined = list(args)
+    lines = []
+
+    def ex(depth=None):
+        return random_bool_expr(rng, defined, rng.randint(1, 2) if depth is None else depth)
+
+    # a first local so that something can be re-bound and read
+    lines.append(f"t = {ex()}")
+    defined.append("t")
+    for _ in range(rng.randint(2, 5)):
+        k = rng.random()
+        if k < 0.55:
+            pool = defined if rng.random() < 0.7 else locs
+            x = rng.choice(pool)
+            lines.append(f"{x} = {ex()}")
+            if x not in defined:
+                defined.append(x)
+        elif k < 0.8:
+            x = rng.choice(defined)
+            lines.append(f"if {ex(1)}:")
+            lines.append(f"    {x} = {ex()}")
+            if rng.random() < 0.5:
+                lines.append("else:")
+                lines.append(f"    {rng.choice(defined)} = {ex()}")
+        else:
+            x = rng.choice(defined)
+            lines.append(f"for i in range({rng.randint(1, 3)}):")
+            lines.append(f"    {x} = {ex(1)}")
+            if rng.random() < 0.5:
+                lines.append(f"    {rng.choice(defined)} = {ex(1)}")
+    if rng.random() < 0.2 and len(defined) >= 2:
+        p, q = rng.sample(defined, 2)
+        return cpython_fn(name, _bools(args), "Tuple[bool, bool]", lines + [f"return ({p}, {ex()})"], "rand-rebind-tuple")
+    return cpython_fn(name, _bools(args), "bool", lines + [f"return {ex(2)}"], "rand-rebind")
+
+
 class Script:
     """text + the module-level bindings it performs (execution order) + function table"""
 
@@ -480,14 +657,29 @@ class Script:
         self.bindings = [list(b) for b in HEADER_BINDINGS]
         self.fns = []  # Fn objects, index = id
         self.deflines = {}  # line number (1-based) of '@qlassf' and 'def' -> id
+        self.strdefs = {}  # name of the `def` inside a source string handed to qlassf(...) -> id
 
     def add_fn(self, fn):
         i = len(self.fns)
         self.fns.append(fn)
+        cfg = fn.cfg
+        kw = cfg_kwargs(cfg)
+        if cfg["style"] == "call":
+            # the QlassF is made by calling qlassf on a source string; the def inside gets a name of its own
+            fn.defname = f"{fn.name}_s{i}"
+            self.strdefs[fn.defname] = i
+            var = f"_src{i}"
+            self.text += f"{var} = '''" + fn.src(fn.defname) + "'''\n"
+            self.bindings.append([var, None])
+            self.text += f"{fn.name} = qlassf({var}{', ' + kw if kw else ''})\n\n"
+            self.bindings.append([fn.name, i])
+            return i
         ln = self.text.count("\n") + 1
         self.deflines[ln] = i
         self.deflines[ln + 1] = i
-        self.text += "@qlassf\n" + fn.src() + "\n"
+        deco = "@qlassf" if cfg["style"] == "qlassf" else f"@qlassfa({kw})"
+        assert cfg["style"] != "qlassf" or not kw
+        self.text += deco + "\n" + fn.src() + "\n"
         self.bindings.append([fn.name, i])
         return i
 
@@ -530,7 +722,10 @@ def random_script(rng):
     for k in range(nf):
         if rng.random() < 0.3:
             s.add_plain(names[3] + str(k))
-        s.add_fn(random_fn(rng, names[k]))
+        fn = random_rebind_fn(rng, names[k]) if rng.random() < 0.45 else random_fn(rng, names[k])
+        if rng.random() < 0.6:
+            fn = fn.with_cfg(_normal_cfg(random_cfg(rng)))
+        s.add_fn(fn)
     r = rng.random()
     if r < 0.15:
         s.add_alias(names[4], names[0])
@@ -574,7 +769,7 @@ class Hooks:
                 self.log["nf"].append(entry)
             try:
                 r = orig(expr, *a, **k)
-            except Exception as e:  # noqa
+            except BaseException as e:  # noqa  (a stopped run too: the entry must stay well-formed)
                 if entry is not None:
                     entry[2] = {"error": type(e).__name__}
                 raise
@@ -659,8 +854,24 @@ def cleanup():
     _TMP = None
 
 
+class ToolTimeout(BaseException):
+    """raised by the interval timer inside a tool run (BaseException: no `except Exception` of the code swallows it)"""
+
+
+TOOL_TIMEOUT_S = float(os.environ.get("QV_C17_TOOL_TIMEOUT", "60"))
+MAX_TOOL_S = [0.0, None]
+N_TIMEOUTS = [0]  # after two stopped runs the limit drops to a tenth (a tree that hangs is reported, not waited for)
+
+
+def _on_alarm(signum, frame):
+    raise ToolTimeout()
+
+
 def run_tool(tool, text, args, in_file=False, out_file=False):
-    """call main() of py2bexp / py2qasm in-process"""
+    """call main() of py2bexp / py2qasm in-process; a run that does not end within TOOL_TIMEOUT_S
+    (far above the slowest run on the unchanged tree: the 9-variable functions with a forced normal form take seconds) is stopped and reported as such"""
+    import signal
+    import time
     H = hooks()
     mod = H.py2bexp if tool == "py2bexp" else H.py2qasm
     argv = [tool] + list(args)
@@ -681,16 +892,31 @@ def run_tool(tool, text, args, in_file=False, out_file=False):
     sys.argv, sys.stdin = argv, io.StringIO("" if in_file else text)
     tempfile.tempdir = _TMP
     exc = None
+    old_handler = signal.signal(signal.SIGALRM, _on_alarm)
+    t0 = time.time()
     try:
         with contextlib.redirect_stdout(out), contextlib.redirect_stderr(err):
             try:
-                mod.main()
+                limit = TOOL_TIMEOUT_S if N_TIMEOUTS[0] < 2 else TOOL_TIMEOUT_S / 10
+                signal.setitimer(signal.ITIMER_REAL, limit)
+                try:
+                    mod.main()
+                finally:
+                    signal.setitimer(signal.ITIMER_REAL, 0)
             except SystemExit as e:
                 exc = f"SystemExit({e.code})"
+            except ToolTimeout:
+                exc = "ToolTimeout"
+                N_TIMEOUTS[0] += 1
+                H.log["exc_text"] = f"the tool did not finish within {limit:g} s"
             except Exception as e:  # noqa
                 exc = type(e).__name__
                 H.log["exc_text"] = f"{type(e).__name__}: {e}"[:300]
     finally:
+        signal.setitimer(signal.ITIMER_REAL, 0)
+        signal.signal(signal.SIGALRM, old_handler)
+        if time.time() - t0 > MAX_TOOL_S[0]:
+            MAX_TOOL_S[0], MAX_TOOL_S[1] = time.time() - t0, " ".join(argv[:5])
         sys.argv, sys.stdin, tempfile.tempdir = old
         log, H.log = H.log, None
         for fn in os.listdir(_TMP):
@@ -713,7 +939,7 @@ _REF_CACHE = {}
 def reference(fn: Fn):
     """what the library computes for the function, independently of the tools:
     (argument bit names, return bit names, expressions JSON, mask of retConj, mask by python ref)"""
-    key = fn.src()
+    key = (fn.src(), fn.py_auth)
     if key in _REF_CACHE:
         return _REF_CACHE[key]
     from qlasskit import QlassF
@@ -746,6 +972,11 @@ def reference(fn: Fn):
                     break
             r["py_ok"] = bad is None
             r["py_bad"] = bad
+            if fn.py_auth:
+                # the meaning of the function is what CPython computes when it runs the source
+                r["lib_mask"] = r["mask"]
+                r["mask"] = table_mask(argbits, lambda env: all(fn.ref(fn.values(env))))
+                r["py_ret_bits"] = lambda env: tuple(bool(x) for x in fn.ref(fn.values(env)))
     _REF_CACHE[key] = r
     return r
 
@@ -754,14 +985,21 @@ _CIRC_CACHE = {}
 
 
 def reference_circuit(fn: Fn, compiler):
-    key = (fn.src(), compiler)
+    src = fn.src(fn.defname or fn.name)
+    key = (src, compiler, fn.cfg["opt"])
     if key in _CIRC_CACHE:
         return _CIRC_CACHE[key]
     from qlasskit import QlassF
+    from qlasskit.boolopt.bool_optimizer import defaultOptimizer, fastOptimizer
 
     from . import circ as C
 
-    qf = QlassF.from_function(fn.src(), to_compile=True, compiler=compiler)
+    # what py2qasm does with the selected QlassF: compile(compiler) with the default uncompute, on the
+    # expressions of the optimizer profile the script chose
+    kw = {}
+    if fn.cfg["opt"]:
+        kw["bool_optimizer"] = dict(fast=fastOptimizer, default=defaultOptimizer)[fn.cfg["opt"]]
+    qf = QlassF.from_function(src, to_compile=True, compiler=compiler, **kw)
     qc = qf.circuit()
     def qname(i):
         # one formal per qubit, in index order: the last name mapped to the qubit, q<i> if it has none
@@ -774,6 +1012,11 @@ def reference_circuit(fn: Fn, compiler):
         return nm
 
     r = dict(name=qc.name, qubits=[qname(i) for i in range(qc.num_qubits)],
+             # the library's convention (QlassF.input_qubits / output_qubits): the argument bits are the
+             # first qubits in order (a name bound again in the body moves in qubit_map), the result bits
+             # are where the map sends the return names
+             in_pos=list(range(sum(len(a.bitvec) for a in qf.args))),
+             out_pos=[qc.qubit_map[b] for b in qf.returns.bitvec],
              qmap=[[k, v] for k, v in qc.qubit_map.items()], n=qc.num_qubits,
              gates=C.qc_to_json(qc),
              body=[(g.__name__.lower(),
@@ -836,7 +1079,10 @@ def selected_id(script: Script, qf):
     if qf is None:
         return None
     try:
-        ln = qf.original_f.__code__.co_firstlineno
+        code = qf.original_f.__code__
+        if code.co_filename == "<string>":  # made from a source string: identified by the def's own name
+            return script.strdefs.get(qf.name, "?")
+        ln = code.co_firstlineno
     except Exception:  # noqa
         return "?"
     return script.deflines.get(ln, "?")
@@ -851,6 +1097,11 @@ def judge_bexp(script, case, out, form, fmt, want_id):
         return ok, "no function selected but something was printed", None
     fn = script.fns[want_id]
     ref = reference(fn)
+    if out["exc"] == "ToolTimeout":
+        why = stopped_in_sympy_on_correct_input(out["log"], ref)
+        if why is None:
+            return True, STOPPED_NOTE, None
+        return False, f"the tool did not finish ({out['log'].get('exc_text')}); {why}", None
     if out["exc"]:
         return False, f"tool raised {out['exc']}: nothing printed", out["log"].get("exc_text")
     text = out["filetext"] if out["filetext"] is not None else out["stdout"]
@@ -883,12 +1134,54 @@ def judge_bexp(script, case, out, form, fmt, want_id):
         diff = m ^ ref["mask"]
         row = (diff & -diff).bit_length() - 1
         env = {nm: (row >> i) & 1 for i, nm in enumerate(ref["argbits"])}
-        return False, "printed expression is not equivalent to the conjunction of the return bits", dict(at=env, printed=bool((m >> row) & 1))
+        what = "printed expression is not equivalent to the conjunction of the return bits"
+        if fn.py_auth:
+            what += " as CPython computes them"
+            if ref.get("py_ok") is False:
+                what += " (the library's own default-profile expressions differ from CPython too)"
+        return False, what, dict(at=env, printed=bool((m >> row) & 1), function=bool((ref["mask"] >> row) & 1))
     if form and not shape_ok(form, j):
         return False, f"printed expression is not in {form}", text[:300]
     if ref.get("py_ok") is False:
         return True, "note: library expressions differ from the python semantics (C01 matter)", None
     return True, "", None
+
+
+STOPPED_NOTE = ("note: a run was stopped inside a sympy normal-form call whose input was the right expression "
+                "(argument bits only, equivalent to the function): slowness of the parameter, not judged")
+
+
+def json_size(j, cap):
+    n, stack = 0, [j]
+    while stack:
+        x = stack.pop()
+        n += 1
+        if n > cap:
+            return n
+        stack.extend(y for y in x[1:] if isinstance(y, list))
+    return n
+
+
+def stopped_in_sympy_on_correct_input(log, ref):
+    """a stopped run is excused only when the timer fired inside a sympy normal-form call (a parameter of
+    the model, assumed total; sympy 1.12 `to_anf` needs 45 s on the 2400-operation tree that inlining a
+    12-statement fast-profile body gives, minutes on `Qint[4] < Qint[4]`) and everything the tool had handed
+    to sympy up to then was right: argument bits only, same truth table as the function (checked when
+    nodes x rows <= 4e6, else not excused).  Returns None when excused, else why not."""
+    nf = log.get("nf") or []
+    if not nf or not (isinstance(nf[-1][2], dict) and nf[-1][2].get("error") == "ToolTimeout"):
+        return "it was not inside a sympy normal-form call when stopped"
+    for e in nf:
+        j = e[1]
+        cap = 4_000_000 >> min(len(ref["argbits"]), 20)
+        if j[0] == "?" or json_size(j, cap) > cap:
+            return f"the expression handed to sympy's to_{e[0]} has more than {cap} nodes (too large to be checked)"
+        extra = [x for x in B.syms_json(j) if x not in ref["argbits"]]
+        if extra:
+            return f"the expression handed to sympy's to_{e[0]} has symbols that are not argument bits: {extra[:5]}"
+        if table_mask(ref["argbits"], lambda env: B.eval_json(j, env)) != ref["mask"]:
+            return f"the expression handed to sympy's to_{e[0]} is not equivalent to the function"
+    return None
 
 
 def model_bexp(ctx, script, case, out, form, fmt, entry):
@@ -1093,6 +1386,9 @@ def run_bexp_case(ctx, res, script, entry, form, fmt, in_file, out_file, bucket)
             if bad:
                 res.violation(case, bad[0] + " (assumed spec of the parameter broken)", code=nf_broken[0][0])
         elif what.startswith("note:"):
+            if what is STOPPED_NOTE:
+                res.histogram["stopped-in-sympy-on-correct-input(not judged)"] = res.histogram.get(
+                    "stopped-in-sympy-on-correct-input(not judged)", 0) + 1
             if what not in res.notes:
                 res.notes.append(what)
 
@@ -1159,6 +1455,8 @@ def run_qasm_case(ctx, res, script, entry, version, compiler, in_file, out_file,
         bad = "gate not applied to q[0..n-1]"
     elif [(g, list(ws)) for g, ws in q["body"]] != [(g, list(ws)) for g, ws in rc["body"]]:
         bad = "gate body differs from the independently compiled circuit of the selected function"
+    if not bad:
+        bad = qasm_semantics(fn, q, rc)
     if bad:
         res.violation(case, bad, code=text[:600], expected=dict(name=rc["name"], qubits=rc["qubits"], body=rc["body"][:20]))
         return
@@ -1174,6 +1472,40 @@ def run_qasm_case(ctx, res, script, entry, version, compiler, in_file, out_file,
 
     PENDING.append(([dict(op="c17.qasm", name=rc["name"], qubits=rc["qmap"], n=rc["n"], gates=rc["gates"],
                           version=version or "3.0")], q_after, lambda r2: None))
+
+
+def qasm_semantics(fn, q, rc):
+    """the printed gate, run as a reversible classical circuit by this file's own interpreter on every
+    input (ancillas 0), must leave the function's return bits - as CPython computes them when the
+    function carries a CPython reference, else as its python reference says - on the result qubits"""
+    if fn.ref is None:
+        return None
+    ref = reference(fn)
+    if len(ref["argbits"]) > 8 or sorted(ref["argbits"]) != sorted(fn.bit_names()):
+        return None
+    pos = {nm: i for i, nm in enumerate(q["formals"])}
+    if len(pos) != len(q["formals"]):
+        return "gate formals repeat a name"
+    body = []
+    for g, ws in q["body"]:
+        if not re.fullmatch(r"x|cx|ccx|c\d+x|mcx", g) or any(w not in pos for w in ws):
+            return None  # not a classical reversible gate of the exporter: not judged here
+        body.append([pos[w] for w in ws])
+    n = len(q["formals"])
+    for r in range(2 ** len(ref["argbits"])):
+        env = {nm: bool((r >> i) & 1) for i, nm in enumerate(ref["argbits"])}
+        st = [False] * n
+        for nm, p in zip(ref["argbits"], rc["in_pos"]):
+            st[p] = env[nm]
+        for ws in body:
+            if all(st[c] for c in ws[:-1]):
+                st[ws[-1]] = not st[ws[-1]]
+        want = tuple(bool(x) for x in fn.ref(fn.values(env)))
+        got = tuple(st[p] for p in rc["out_pos"])
+        if got != want:
+            return (f"the printed circuit run on {env} leaves {list(got)} on the result qubits, "
+                    f"the function returns {list(want)}")
+    return None
 
 
 # --------------------------------------------------------------------------- convert_to_dimacs directly
@@ -1344,8 +1676,15 @@ def run(ctx: Ctx) -> Result:
         "case = (tool, script text, argv, input/output channel); systematic: every hand-picked function "
         "(each CNF shape, constants, intermediates/CSE, multi-bit returns, 8 and 9 variables) as a single-function "
         "script x every form x every format, entry-point scenarios (named, missing, alias, rebinding, shadowed, "
-        "definition order != alphabetical order), py2qasm x versions; convert_to_dimacs on every CNF over <=3 "
-        "variables with <=2 clauses; then random scripts (1-3 functions + helpers) x random options; "
+        "definition order != alphabetical order), py2qasm x versions; every configuration a script can choose "
+        "(@qlassf, @qlassfa() with bool_optimizer=fastOptimizer/defaultOptimizer, to_compile=False, uncompute=False and "
+        "combinations, qlassf(<source string>, ...)) x 13 bodies that bind variables/arguments again (straight-line, "
+        "if, for, tuple and Qint results; readers before and after the re-binding) judged against CPython's execution "
+        "of the source, x plain form + rotating form/format pairs (all pairs in the thorough tier) and py2qasm "
+        "(printed gate simulated on every input), multi-function scripts with one setting per function; "
+        "convert_to_dimacs on every CNF over <=3 "
+        "variables with <=2 clauses; then random scripts (1-3 functions + helpers; 45% random re-binding bodies "
+        "with if/for, 60% a random configuration) x random options; "
         "non-trivial = selected function has >= 2 argument bits (py2bexp), a function is selected (py2qasm), "
         ">= 2 literals (direct DIMACS)"
     )
@@ -1389,6 +1728,53 @@ def run(ctx: Ctx) -> Result:
                 for form, fmt in ((None, None), ("cnf", "dimacs")):
                     run_bexp_case(ctx, res, sc, e, form, fmt, False, False, bucket=f"entry:{tag}")
                 run_qasm_case(ctx, res, sc, e, "2.0" if e else None, None, False, False, bucket=f"qasm-entry:{tag}")
+        # ---- systematic: every configuration a script can choose x bodies that bind names again
+        pairs = [(f, t) for f in FORMS for t in FORMATS if (f, t) != (None, None)]
+        rot = 0
+        bodies, cfgs = config_bodies(), systematic_cfgs()
+        for bi, body in enumerate(bodies):
+            for ci, cfg in enumerate(cfgs):
+                fn = body.with_cfg(cfg)
+                script = single_script(fn)
+                bucket = f"cfg:{cfg_tag(cfg)}"
+                if ctx.thorough:
+                    todo = [(None, None)] + pairs
+                else:
+                    # the plain form always; the other nine form x format pairs in rotation (two per
+                    # combination when the profile keeps the user's names, one otherwise)
+                    k = 2 if cfg["opt"] == "fast" else 1
+                    todo = [(None, None)] + [pairs[(rot + j) % len(pairs)] for j in range(k)]
+                    rot += k
+                for form, fmt in todo:
+                    run_bexp_case(ctx, res, script, None, form, fmt, in_file=((bi + ci) % 2 == 1),
+                                  out_file=((bi + ci) % 5 == 4), bucket=bucket)
+                    res.histogram[f"body:{body.tag}"] = res.histogram.get(f"body:{body.tag}", 0) + 1
+                run_qasm_case(ctx, res, script, None, [None, "2.0", "3.0"][(bi + ci) % 3], None,
+                              in_file=((bi + ci) % 2 == 0), out_file=((bi + ci) % 4 == 3), bucket=f"qasm-{bucket}")
+                if ctx.thorough:
+                    run_qasm_case(ctx, res, script, None, "2.0" if (bi + ci) % 3 else "3.0", "internal", False, False,
+                                  bucket=f"qasm-{bucket}")
+        # several functions in one script, each with its own settings; every one selected by name and by default
+        multi = []
+        for k in range(4):
+            sc = Script()
+            nm = ["kappa", "Bravo", "zeta", "_under"]
+            for j in range(3):
+                body = bodies[(3 * k + j) % len(bodies)]
+                cfg = cfgs[(2 + 5 * k + 3 * j) % len(cfgs)]
+                sc.add_fn(body.renamed(nm[(k + j) % 4]).with_cfg(cfg))
+            if k == 1:
+                sc.add_alias("omega", nm[(k + 0) % 4])
+            if k == 2:  # the first name bound again: same body, the other optimizer profile
+                sc.add_fn(bodies[0].renamed(nm[(k + 0) % 4]).with_cfg(mk_cfg("qlassfa", opt="fast")))
+            multi.append(sc)
+        for k, sc in enumerate(multi):
+            fin = sc.final()
+            entries = [None] + sorted(n for n, i in fin.items() if i is not None)
+            for ei, e in enumerate(entries):
+                for form, fmt in ((None, None), pairs[(k + 2 * ei) % len(pairs)]):
+                    run_bexp_case(ctx, res, sc, e, form, fmt, False, False, bucket="cfg-multi")
+                run_qasm_case(ctx, res, sc, e, "2.0" if (k + ei) % 2 else "3.0", None, False, False, bucket="qasm-cfg-multi")
         # ---- convert_to_dimacs directly, every small CNF
         direct = small_cnfs(3, 2)
         if ctx.thorough:
@@ -1416,6 +1802,7 @@ def run(ctx: Ctx) -> Result:
         PENDING[:] = []
         cleanup()
     res.notes.append("tools called in-process via main(); tweedledum compiler not installed (not exercised)")
+    res.notes.append(f"slowest tool run {MAX_TOOL_S[0]:.2f} s [{MAX_TOOL_S[1]}] (a run is stopped and reported after {TOOL_TIMEOUT_S:g} s)")
     return res
 
 
